@@ -140,6 +140,8 @@ func runC19(r *engine.Run) {
 	r.Rule("FRESH-tree", "GetTree hands out the node slice and SetTree installs the caller's slice without copying, so a method that stores nodes element by element (ComputeTree) assigns the tree field only from a make: recomputing never writes into memory an exported or loaded tree still uses")
 	r.Rule("DOM-atomic", "in SetTree no store to a receiver field can be followed by an error return: a rejected load leaves the tree (nodes, leaf count, levels) exactly as it was")
 	r.Rule("PURE-state", "no function of the Merkle tree files stores to a package-level variable or appends/copies into memory obtained from one: building and verifying are re-entrant")
+	r.Rule("AGREE-levels", "the level count computeSize returns is the number of halving steps of its size loop plus one: the loop's own counter + 1, the constant of the single-leaf tree, or the closed form bits.Len(leaves-1)+1 (bits.Len(leaves)+1 is one too high exactly for full trees: their paths get one element too many); other forms are not judged")
+	r.Rule("FRESH-path", "the node list of a path handed out by GetPathByIndex is a slice made in the call, never memory the tree keeps (a later request would rewrite a path an earlier caller still holds)")
 	r.Rule("DEP-wholeinput", "encryption.RawHash, which every hash of the library ends in (MHash, Hash, the node hashes of both tries), writes into the hasher only whole views of its type-asserted argument: the []byte itself, a []byte(string) conversion, a full slice of the asserted array, or an append of all of it onto an empty slice - never a bounded copy or a sub-slice (inputs that differ only past the bound would collide: a path would verify for another leaf hash)")
 	r.Rule("AGREE-range", "a range guard of VerifyMerklePath that turns a path away before hashing (branch to a constant false verdict on a comparison of the path's leaf index) leaves through every position the prover hands out for a path of that length, 0 .. 2^len(path)-1: index >= 2^len+k needs k >= 0, index > 2^len+k needs k >= -1, index < c needs c <= 0, index <= c needs c < 0; guards of other forms are not judged")
 	r.NotDec = append(r.NotDec, "that paths verify for every leaf count and index and do not verify for another leaf (index arithmetic over runtime n, idx: value-level)", "collision resistance of the hash")
@@ -159,6 +161,8 @@ func runC19(r *engine.Run) {
 	c19Pure(r, "PURE-state")
 	depWholeInput(r, "DEP-wholeinput")
 	agreeRange(r, "AGREE-range", verify)
+	agreeLevels(r, "AGREE-levels", size)
+	freshPath(r, "FRESH-path", prove)
 }
 
 func mhashCalls(f *ssa.Function) []*ssa.Call {
